@@ -84,7 +84,7 @@ def h_sign_service(e, st, o, name, args, kwargs):
         s1 = st
         for c in cs:
             s1 = s1.assume(c)
-        s1 = s1.ghost_append("sign_calls", TupleV([StrV(name), args[0]]))
+        s1 = s1.ghost_append("sign_calls", TupleV([StrV(name), args[0], v]))
         yield s1, Rec(ci, {"sec_message": v, "sec_message_length": e.bytes_len(v)})
         return
     raise Unsupported(f"sign_service.{name}")
